@@ -75,6 +75,8 @@ def run(F, R, ctx):
     definition_order_rule(F, R)
     arity_elision_rule(F, R)
     inline_count_rule(F, R)
+    constant_truth_rule(F, R)
+    alias_substitution_rule(F, R)
 
 
 # the walkers whose result decides how an assigned variable is compiled: they must see every sub-expression
@@ -893,3 +895,117 @@ def inline_count_rule(F, R):
                    "of arguments is inlined, and is then not reported" % (fn.short(), fn.blocks[i].get("line") or fn.d.get("line")),
                    fn.loc(fn.blocks[i].get("line")), sample=True)
     R.floor("C01.i", "call-site inlining closures", n, 3)
+
+
+def constant_truth_rule(F, R):
+    R.rule("C01.k", "the constant folder prunes an `if` only on what it can decide: ConstantEvaluator::visit_if asks is_constant(test) "
+                    "and then is_truthy_constant(test); for every kind of expression (variant of ExprKind), if the truthiness "
+                    "predicate has to look further (its arm consults a predicate of the evaluator on the sub-expression) the "
+                    "constness predicate looks as far (its arm consults a predicate too) — it never answers `constant` on the "
+                    "kind alone (sibling agreement, derived from the two match statements). nc: an expression that counts as "
+                    "constant but whose truth the other predicate cannot establish is pruned to the else branch — every quoted "
+                    "list is true in Scheme, `(if '(1 2) a b)` must take a")
+    ic = F.one(r"const_evaluation::\{impl ConstantEvaluator\}::is_constant$")
+    it = F.one(r"const_evaluation::\{impl ConstantEvaluator\}::is_truthy_constant$")
+    vi = [f for f in F.find(r"\{impl ConsumingVisitor for ConstantEvaluator[^}]*\}::visit_if$")]
+    if not vi or not vi[0].call_blocks(r"\{impl ConstantEvaluator\}::is_constant$") or \
+            not vi[0].call_blocks(r"\{impl ConstantEvaluator\}::is_truthy_constant$"):
+        raise CheckError("anchor lost: ConstantEvaluator::visit_if no longer asks is_constant and is_truthy_constant")
+    PRED = r"\{impl ConstantEvaluator\}::(is_constant|is_truthy_constant)$"
+
+    def arms(fn):
+        sws = lib.enum_switches(fn, "ExprKind")
+        if not sws:
+            raise CheckError("anchor lost: %s does not match on ExprKind" % fn.short())
+        sb = min(sws)
+        ac = lib.arm_calls(fn, sb)
+        return {v: any(re.search(PRED, c) for c, _ in cs) for v, cs in ac.items()}
+    ac, at = arms(ic), arms(it)
+    n = 0
+    for v in sorted(set(ac) | set(at)):
+        if v == "_":
+            continue
+        n += 1
+        consults_t = at.get(v, at.get("_", False))
+        consults_c = ac.get(v, ac.get("_", False))
+        R.inst("C01.k", "ExprKind::%s / constness looks as far as truthiness" % v, (not consults_t) or consults_c,
+               "ConstantEvaluator::is_truthy_constant has to look inside an ExprKind::%s to decide it (its arm asks a predicate "
+               "about the sub-expression), but is_constant answers for the kind alone: some %s expressions count as constant "
+               "although their truth cannot be established, and visit_if prunes them to the else branch" % (v, v),
+               ic.loc(), sample=True)
+    R.floor("C01.k", "expression kinds with an arm in the constant predicates", n, 2)
+    # every truthiness predicate over expressions looks at what is quoted before it answers for a quotation ('#f is #f)
+    m = 0
+    for name, fn in sorted(F.fns.items()):
+        if not re.search(r"^steel::(compiler|steel_vm::const_evaluation)", name) or fn.d["out"] != "bool" or \
+                not re.search(r"truthy", lib.split_path(name)[-1]) or "&ExprKind" not in fn.d["in"]:
+            continue
+        sws = lib.enum_switches(fn, "ExprKind")
+        if not sws:
+            continue
+        sb = min(sws)
+        am = lib.arm_map(fn, sb)
+        if "Quote" not in am or am["Quote"] == am.get("_"):
+            continue
+        m += 1
+        arm = lib.arm_reach(fn, sb, am["Quote"])
+        looks = any(e[0] == "fld" and e[1] == "Quote" and e[2] == "expr" for x in arm for e in fn.blocks[x]["e"]) or \
+            any(e[0] == "mv" and re.search(r"as Quote\.0|\.expr", e[2]) for x in arm for e in fn.blocks[x]["e"])
+        R.inst("C01.k", "%s / the Quote arm looks at the quoted expression" % fn.short(), looks,
+               "%s answers for every quotation alike: a quoted #f counts as true, and an `if` whose test is '#f is pruned to its "
+               "then branch" % fn.short(), fn.loc(), sample=True)
+    R.floor("C01.k", "truthiness predicates over expressions", m, 2)
+
+
+def alias_substitution_rule(F, R):
+    from .c07 import _backward, _origins
+    R.rule("C01.j", "a pass that replaces one variable by another knows which variables are assigned: "
+                    "RemoveLetsBoundToOtherLocalVars (`(let ((a b)) …)` ⇒ uses of a become b) is built with a collection that "
+                    "derives from a visitor overriding visit_set (the names that are targets of a set! somewhere in the "
+                    "expression), and its visit_let consults that collection (a contains test on a field other than the "
+                    "lexical-scope tables) before it records an alias. nc: with an assignment to either variable in reach the "
+                    "two are not the same variable — `(let ((y x)) (set! y (+ y 1)) (list x y))` answered (2 2) for x = 1")
+    vl = F.one(r"\{impl VisitorMutRefUnit for RemoveLetsBoundToOtherLocalVars\}::visit_let$")
+    from . import c14
+    fields = {}
+    maps_v = _backward(vl)
+    raw_v = c14._raw_sources(vl)
+    for i, b in vl.calls():
+        if re.search(r"::contains$", b["callee"]) and b["args"]:
+            for o in _origins(vl, re.match(r"_\d+", b["args"][0]).group(0), maps_v, depth=10):
+                for s_ in raw_v.get(o.split(".")[0], ()):
+                    m = re.search(r"\(\*_1\)\.(\w+)", s_)
+                    if m:
+                        fields.setdefault(m.group(1), []).append(i)
+    extra = sorted(set(fields) - {"args", "scope"})
+    R.inst("C01.j", "RemoveLetsBoundToOtherLocalVars::visit_let consults assignment information before aliasing", bool(extra),
+           "RemoveLetsBoundToOtherLocalVars::visit_let decides to replace a let-bound variable by its initialiser looking only at "
+           "the lexical tables (%s): it does not know whether either variable is assigned" % ", ".join(sorted(fields)) , vl.loc(), sample=True)
+    # the collection comes from the set! forms of the expression
+    setters = {m.group(1) for n in F.fns for m in [re.search(r"\{impl VisitorMut\w* for (\w+)\}::visit_set$", n)] if m}
+    n = 0
+    for name, fn in sorted(F.fns.items()):
+        if not name.startswith("steel::compiler::"):
+            continue
+        for i, _, e in fn.events("agg"):
+            if e[1] != "RemoveLetsBoundToOtherLocalVars":
+                continue
+            n += 1
+            maps = _backward(fn)
+            recv = set()
+            for j, b in fn.calls():
+                m = re.search(r"\{impl VisitorMut\w* for (\w+)\}::visit$|for (\w+)\}::visit$", b["callee"])
+                t = (m.group(1) or m.group(2)) if m else None
+                if t is None and re.search(r"::VisitorMut\w*::visit$", b["callee"]) and b["targs"]:
+                    t = b["targs"][0]           # the trait's default `visit`, instantiated for the visitor type
+                if t in setters and b["args"]:
+                    recv |= {x for x in lib.alias_sources(fn, re.match(r"_\d+", b["args"][0]).group(0), 4) if re.match(r"^_\d+$", x)}
+            ok = False
+            for op in e[4]:
+                for t in lib.TOK.findall(str(op)):
+                    if ({o.split(".")[0] for o in _origins(fn, t, maps, depth=10)} | {t.split(".")[0]}) & recv:
+                        ok = True
+            R.inst("C01.j", "%s builds the pass with the names assigned in the expression" % fn.short(), ok,
+                   "%s constructs RemoveLetsBoundToOtherLocalVars (line %s) without handing it a collection that comes from a "
+                   "visitor of the expression's set! forms" % (fn.short(), e[3]), fn.loc(e[3]), sample=True)
+    R.floor("C01.j", "constructions of the let-alias pass", n, 1)
